@@ -359,10 +359,10 @@ def scenarios(thorough):
         for n in (2, 3, 4):
             S.append(Scenario("race%d-hold-%s" % (n, u), [("g", ["create", "exit"])] + [("c%d" % i, ["clean"]) for i in range(n)],
                               prelude=[("g", 2)], priv=priv, bound=(2 if n == 2 else 1) + (1 if thorough else 0), oracle="onewinner", snapshot=True,
-                              max_execs=5000 if thorough else 300))
+                              max_execs=5000 if thorough else {2: 100, 3: 80, 4: 60}[n]))
         # two cleaners, the winner cleans up and drops while the other is still trying
         S.append(Scenario("race2-drop-" + u, [("g", ["create", "exit"]), ("c0", ["clean", "cdrop"]), ("c1", ["clean", "cdrop"])],
-                          prelude=[("g", 2)], priv=priv, bound=2, snapshot=True, max_execs=20000 if thorough else 400))
+                          prelude=[("g", 2)], priv=priv, bound=2, snapshot=True, max_execs=20000 if thorough else 150))
         # winner abandons (node cleanup failure path): the other may re-acquire
         S.append(Scenario("race2-abandon-" + u, [("g", ["create", "exit"]), ("c0", ["clean", "cabandon"]), ("c1", ["clean", "cdrop"])],
                           prelude=[("g", 2)], priv=priv, bound=2 if thorough else 1, snapshot=True))
@@ -515,6 +515,11 @@ def run_tie(ctx, tdir, proof_ok):
         if not got and not res["error"]:
             ctx.violation("model driver failed in scenario %s" % sc.name, {"scenario": sc.to_json(), "tail": res["driver_out"][-800:]}, no_input=True)
 
+    for res in results:
+        if res["scenario"].name.startswith("F3-regression") and res["blocks"]:
+            if "R 1 state CleaningUp" not in res["blocks"][0]:
+                ctx.violation("F3 regression: the former Dead-while-alive schedule no longer yields CleaningUp on the real binaries",
+                              replay_obj(res, 1, "F3 regression"), key="procstate:dead-verdict-in-shutdown-window")
     seen_keys = set()
     for res, case_no, line in spec_mm:
         cls = classify(line)
